@@ -150,16 +150,7 @@ Qed.
 Lemma is_empty_my_any : forall g, gv_yf g -> g <> GUMap [] -> is_empty_any (my_any g) = is_empty_any g.
 Proof.
   intros g Y N. destruct g; try reflexivity.
-  - cbn [my_any]. destruct (y_float_ok_cases _ _ Y) as [(z & E & Z)|E]; rewrite E; [|reflexivity].
-    cbn [is_empty_any]. subst jtok. destruct (Z.eqb_spec z 0) as [Ez|Nz].
-    + subst z. reflexivity.
-    + symmetry. apply orb_false_iff. split.
-      * destruct (String.eqb_spec (z_to_string z) "0") as [E0|]; [|reflexivity].
-        apply z_to_string_inj0 in E0. contradiction.
-      * destruct (String.eqb_spec (z_to_string z) "-0") as [E0|]; [|reflexivity].
-        exfalso. eapply z_to_string_negzero; eassumption.
-  - cbn [my_any is_empty_any]. destruct l; reflexivity.
-  - destruct l as [|x r]; [congruence|]. rewrite my_any_umap. reflexivity.
+  cbn [my_any]. destruct (y_float_ok_cases _ _ Y) as [(z & E & Z)|E]; rewrite E; reflexivity.
 Qed.
 
 (** ------------------------------------------------------------------ *)
@@ -1190,7 +1181,8 @@ Qed.
        ([incoherent_float_counterexample]; used in [yobj_fix], [contents_fix_y],
        [cfg_roundtrip_y], [adj_roundtrip_yaml], and the unknown-step case of [step_roundtrip_yaml]),
      * every signature carries a signed_fields list ([nil_signed_fields_counterexample]),
-     * no adjustment's `skip` is an empty Go map ([empty_map_skip_counterexample]),
+     * no adjustment's `skip` is an empty Go map (needed by the proof of [adj_roundtrip_yaml]; since the fix of
+       finding F21 no longer necessary in the implementation, see [empty_map_skip_agrees]),
      * the extra fields of a disabled cache do not collide with a field key
        ([disabled_cache_clash_counterexample]; then yaml.Marshal panics, [y_pipeline_ok]),
      * an unknown step is again one as the YAML scanner reads it ([unknown_timestamp_counterexample]);
@@ -1789,14 +1781,14 @@ Qed.
    parse error, Parse leaves no schema key among the extra fields, the harness reports coherent
    tokens); they are shown on constructed pipelines that satisfy [pipeline_fix_ok] *)
 
-(* `skip` holding an empty Go map: dropped by encoding/json's omitempty, kept by yaml.v3 (`skip: {}`),
-   read back as an ordered map, which is never empty for omitempty *)
+(* `skip` holding an empty Go map: before the fix of finding F21 it was dropped by the JSON marshaller's omitempty and
+   kept by yaml.v3 (`skip: {}`), so the two legs disagreed; now both keep it (it means "skip") and the legs agree *)
 Definition p_skip0 : pipeline :=
   mkPipeline [SCommand (mkCmd "" "" "c" [] [] None
                           (Some (mkMx None [Some (mkMAdj None (GUMap []) [])] [])) None [])] None [] false.
-Example empty_map_skip_counterexample :
+Example empty_map_skip_agrees :
   pipeline_fix_ok p_skip0 /\
-  exists py wy, reparse_yaml p_skip0 = Ok py wy /\ mj_pipeline py <> mj_pipeline p_skip0.
+  exists py wy, reparse_yaml p_skip0 = Ok py wy /\ mj_pipeline py = mj_pipeline p_skip0.
 Proof.
   split.
   - unfold pipeline_fix_ok, p_skip0. cbn [pp_steps pp_rem]. split; [|apply rem_ok_nil]. constructor; [|constructor].
@@ -1806,7 +1798,7 @@ Proof.
     split; [|exact I]. unfold matrix_fix_ok. cbn [mx_setup mx_adj mx_rem].
     split; [exact I|]. split; [|apply rem_ok_nil]. constructor; [|constructor].
     cbn [adj_fix_ok ma_skip ma_rem]. split; [|apply rem_ok_nil]. split; exact I.
-  - eexists. eexists. split; [vm_compute; reflexivity|]. vm_compute. discriminate.
+  - eexists. eexists. split; vm_compute; reflexivity.
 Qed.
 
 (* an unknown step whose `type` is a timestamp: a string once written as JSON (an unknown step
